@@ -42,6 +42,7 @@ def run(ctx):
                    'append, and the append keeps strlen <= capacity - 1', floor=4)
     chk.rule('L4', 'literal text of the format is not routed through the buffer sized by the data-source limit (it would be '
                    'cut to that limit)', floor=1)
+    chk.rule('L5', 'the name and argument buffers of a tag are rebuilt for every tag (nothing of the previous tag is reused)', floor=1)
     chk.rule('L3', 'the ident and path templates are expanded into fixed buffers with their own size as the limit', floor=2)
     chk.explanation = (
         'Decides only the two length clauses. Sizes are composed symbolically across the three call levels (action -> '
@@ -132,6 +133,40 @@ def run(ctx):
                'through it is cut to the data-source limit although it is no data source output (a literal longer than '
                'the limit loses its tail even when the whole message fits)' % (render(foreign[0])[:70] if foreign else ''),
                how='written only by %s and by the reset to ""' % DS_CALL)
+    # ---- L5: name and argument handed to a data source are those of THIS tag ---------------------------------
+    from engine.uninit import UninitAnalysis
+    ua = UninitAnalysis(prog)
+    live = C.reachable_blocks(G)
+    for i, c in enumerate(dsc[:1]):
+        el = C.cfg_elem_of(G, c)
+        pos = C.elem_positions(G)
+        cb = pos[el.id][0]
+        loop = None
+        for comp in C._sccs(G, live):
+            if cb in comp and (len(comp) > 1 or cb in G.blocks[cb].succs):
+                loop = set(comp)
+        if loop is None:
+            break
+        preds = {}
+        for b in G.blocks.values():
+            for s_ in b.succs:
+                preds.setdefault(s_, set()).add(b.id)
+        headers = [b for b in loop if any(p_ not in loop for p_ in preds.get(b, ()))]
+        if not headers or not G.blocks[headers[0]].elems:
+            break
+        hdr = headers[0]
+        arrays = [x for x in G.local_decls() if 'arrayLen' in x and (x.get('ct') or '').startswith('char')]
+        for x in arrays:
+            pt = PtrTaint(G, lambda n: False, {x['id']})
+            if not any(a is not None and pt.is_derived(a) for a in (arg(c, 0), arg(c, 3))):
+                continue
+            pt2 = PtrTaint(G, lambda n: False, {x['id']})
+            bad = ua._first_read(G, pt2, (hdr, 1), 0, base=x['id'])
+            chk.ob('L5', 'tag-text-rebuilt-for-every-tag[%s]' % x['name'], bad is None, (bad or c).where(), G.name,
+                   '%s reaches %s with what an earlier tag left in it: on some way round the expansion loop nothing is '
+                   'written into it before it is used, so a tag without an argument inherits the previous tag\'s argument '
+                   '(%%{env:X}|%%{datetime} expands datetime with the format "X")' % (x['name'], render(bad)[:50] if bad is not None else ''),
+                   how='written on every path from the loop head to its use')
     # what is appended after the call is the buffer itself
     # ---- L2 ------------------------------------------------------------------------------------
     msg = decl_of(arg(gc, 0))
